@@ -8,7 +8,7 @@ def _outcome():
     return chk.Outcome()
 
 
-def generic(pid, work, tier, seed, cmd, tracespec, scripts, design, sigfn, rule, owns=None, jobs=12, extra=None, script_of=None):
+def generic(pid, work, tier, seed, cmd, tracespec, scripts, design, sigfn, rule, owns=None, jobs=12, extra=None, script_of=None, gwbin="rdpgw"):
     """Run a driver over scripts, validate with a trace spec, confirm violations per signature."""
     out = _outcome()
 
@@ -17,7 +17,7 @@ def generic(pid, work, tier, seed, cmd, tracespec, scripts, design, sigfn, rule,
         tp = work.path("trace-%s.ndjson" % tag)
         if ss is not None:
             write_ndjson(sp, ss)
-        rep = run_driver(cmd, work, scripts=sp if ss is not None else None, out=tp, seed=seed, jobs=jobs, tier=tier, tag=tag, extra=extra)
+        rep = run_driver(cmd, work, scripts=sp if ss is not None else None, out=tp, seed=seed, jobs=jobs, tier=tier, tag=tag, extra=extra, gw=gwbin)
         if ss is not None and rep.get("done") != len(ss):
             raise HarnessError("driver %s finished %s of %d scripts" % (cmd, rep.get("done"), len(ss)))
         res = trace_check(tracespec, tracespec + ".cfg", tp, work, tag="tv-" + tag)
